@@ -4,6 +4,7 @@ import SarpyModel.Drivers.Poly
 import SarpyModel.Drivers.FieldFmt
 import SarpyModel.Drivers.Layout
 import SarpyModel.Drivers.Sidd
+import SarpyModel.Drivers.Cphd
 namespace Sarpy.Drivers
 
 def step (line : String) : String :=
@@ -15,6 +16,7 @@ def step (line : String) : String :=
   | "nitf" :: rest => (fieldStep rest).getD "bad-op"
   | "layout" :: rest => (layoutStep rest).getD "bad-op"
   | "sidd" :: rest => (siddStep rest).getD "bad-op"
+  | "cphd" :: rest => (cphdStep rest).getD "bad-op"
   | _ => "bad-op"
 
 partial def loop (h : IO.FS.Stream) : IO Unit := do
